@@ -406,6 +406,14 @@ class Engine:
                         self._modstate.append((v, _copy.deepcopy(v)))
                     except Exception:
                         pass
+                if isinstance(v, type) and getattr(v, '__module__', '') == name:
+                    # class-level containers (shared by every instance) are global state as well
+                    for ck, cv in list(vars(v).items()):
+                        if not ck.startswith('__') and type(cv) in (dict, list, set):
+                            try:
+                                self._modstate.append((cv, _copy.deepcopy(cv)))
+                            except Exception:
+                                pass
 
     def reset_modules(self):
         import copy as _copy
@@ -448,6 +456,7 @@ class Engine:
             self.implied = {}
             self.model = None
             self.lru = {}
+            self.shared_arrays = {}
             try:
                 r = harness(self)
                 results.append(r)
@@ -459,6 +468,23 @@ class Engine:
             if self.stats['paths'] > self.max_paths:
                 raise Unsupported('path budget exceeded')
         return results
+
+    def shared(self, v):
+        """A module- or class-level numpy vector read by interpreted code: ONE model array per real array and path, so
+        that every reader (e.g. every instance initialised from a module-level template without copying it) shares it
+        and writes through it are seen by all of them; the real array is never written."""
+        try:
+            import numpy as np
+        except ImportError:
+            return v
+        if isinstance(v, np.ndarray) and v.ndim == 1 and v.dtype.kind in 'iufb':
+            if not hasattr(self, 'shared_arrays'):
+                self.shared_arrays = {}
+            k = id(v)
+            if k not in self.shared_arrays:
+                self.shared_arrays[k] = (v, SArr([int(x) if float(x) == int(x) else float(x) for x in v.tolist()]))
+            return self.shared_arrays[k][1]
+        return v
 
     def fresh(self, prefix, sort='int'):
         self.fresh_n += 1
@@ -1587,7 +1613,7 @@ class Frame:
         if e.id in self.closure:
             return self.closure[e.id]
         if e.id in self.globs:
-            return self.globs[e.id]
+            return self.eng.shared(self.globs[e.id])
         try:
             return getattr(builtins, e.id)
         except AttributeError:
